@@ -298,13 +298,14 @@ def main(argv=None):
         except DriverError as e:
             log(f"[{pid}] model driver failed: {e}")
             model_ok = False
+    canon = getattr(prop, "canon", lambda c, line: line)
     if model_ok:
         for idx, c in enumerate(cases):
             want = prop.render(c, results[idx], encF)
-            if want != outF[idx]:
+            if canon(c, want) != canon(c, outF[idx]):
                 mism.append((idx, "F", want, outF[idx]))
         for (idx, rx), got in zip(idxX, outX):
-            if rx != got:
+            if canon(cases[idx], rx) != canon(cases[idx], got):
                 mism.append((idx, "X", rx, got))
 
     # ---- histograms / non-triviality
@@ -487,13 +488,15 @@ def shrink_mismatch(prop, case, mode):
         return case
     enc = Enc(mode)
 
+    canon = getattr(prop, "canon", lambda c, line: line)
+
     def differs(c):
         try:
             want = prop.render(c, prop.impl(c), enc)
             got = run_model([prop.encode(c, enc)], mode)[0]
         except Exception:
             return False
-        return want != got
+        return canon(c, want) != canon(c, got)
 
     cur = case
     progress = True
